@@ -189,6 +189,17 @@ func runCfgCase(c *cfgCase, bin, dir string) (kind, what string, inconcl string)
 	conf := map[string]string{"mq-name": "rawSocket", "mq-config-file": "mq.conf"}
 	for k, v := range c.File {
 		conf[k] = v
+		// a string-valued key may be written as a quoted YAML scalar (double or single quotes): same value
+		for ki, ck := range ckeys {
+			if ck.Name == k && ck.Kind == "string" && v != "" {
+				switch (c.Index + ki) % 3 {
+				case 1:
+					conf[k] = `"` + v + `"`
+				case 2:
+					conf[k] = "'" + v + "'"
+				}
+			}
+		}
 	}
 	writeConf(dir, conf, sink.port)
 	var env, flags []string
@@ -609,7 +620,7 @@ func configMain(args mon.Args) {
 	}
 	run.Set("key_x_source_cells_covered", len(cells))
 	run.Set("keys_observed", len(ckeys))
-	run.SetRule("every observed key (4 UDP ports, 4 enable switches, 4 worker counts, stats port/address/format/enabled, pid file, log file, verbose, 2 cache files, cpu-cap, producer-enabled, dynamic-workers, ipfix-rpc-enabled: integer, string and boolean kinds) gets an independent subset of {VFLOW_* environment, configuration file, command line} by a Latin square over 16 collector processes (every key meets all 8 subsets), with a distinct value per source (a boolean source always disagrees with the one it overrides; in half of the processes a winning file/flag value of the worker counts, stats address, log file and cpu-cap is the built-in default itself, i.e. 200, the empty string, 100%); the -config option stands first, last or in the middle of the command line; thorough adds random subsets/values and boolean spellings. The real binary is started and the effective value is read back behaviourally: UDP/TCP sockets of the process from /proc, Workers from /flow or /metrics, which endpoint answers, files that appear (pid, log, cache files after SIGTERM), the verbose banner. Expected = flag ?? file ?? env ?? built-in default. distinct = source assignment")
+	run.SetRule("every observed key (4 UDP ports, 4 enable switches, 4 worker counts, stats port/address/format/enabled, pid file, log file, verbose, 2 cache files, cpu-cap, producer-enabled, dynamic-workers, ipfix-rpc-enabled: integer, string and boolean kinds) gets an independent subset of {VFLOW_* environment, configuration file, command line} by a Latin square over 16 collector processes (every key meets all 8 subsets), with a distinct value per source (a boolean source always disagrees with the one it overrides; in half of the processes a winning file/flag value of the worker counts, stats address, log file and cpu-cap is the built-in default itself, i.e. 200, the empty string, 100%); the -config option stands first, last or in the middle of the command line; string-valued keys are written plain, double-quoted or single-quoted in the file; thorough adds random subsets/values and boolean spellings. The real binary is started and the effective value is read back behaviourally: UDP/TCP sockets of the process from /proc, Workers from /flow or /metrics, which endpoint answers, files that appear (pid, log, cache files after SIGTERM), the verbose banner. Expected = flag ?? file ?? env ?? built-in default. distinct = source assignment")
 	run.Assume("keys without an external observable (*-udp-size, mirror settings, topics with the rawSocket backend, mq-name) and the list-valued sflow-type-filter are not covered")
 	run.Finish()
 }
